@@ -34,6 +34,11 @@ def vop(op, i):
         return '(VWithdraw %s %s %s)' % (c, H(op['recipient']), op['amount'])
     if k == 'transferOp':
         return '(VTransferOp %s %s)' % (c, H(op['a']))
+    if k == 'upgrade':
+        # an upgrade transaction carrying an argument: `upgrade` takes none, the framework refuses the call.  The model has no such call
+        # shape; it is represented by a call the model refuses as well (a payment attached to the non-payable withdrawRefundToken).
+        c = c.replace('x_value := {| cv_egld := 0;', 'x_value := {| cv_egld := 1;')
+        return '(VWithdrawRefund %s %s 0)' % (c, H(b'EGLD'.hex()))
     if k == 'withdrawRefund':
         if op.get('repeat'):
             # called with the argument given twice: the framework refuses the call (wrong number of arguments).  The model has no such
